@@ -195,6 +195,26 @@ def parts(tier):
         bounds={"depth": 3, "span_cap": 8, "label_length_cap": 9}, max_depth=3, prune=_prune_fn(8, 9),
         snippet=lambda c: tierops.snippet(c[0], c[1], tierops.OTHERS_I_DEC if c[0][0] == "I" else tierops.OTHERS_P_DEC)))
 
+    # far-from-zero grid (2**40 + ...): the constructors' safety net and every operation's arithmetic at a magnitude where a relative
+    # tolerance is a real duration; equal labels included (entries 0.25 s apart compare "equal" under the library's entry tolerance)
+    B = D.BIG
+    VB = (B[0], B[1], B[3], B[4], B[5], B[6])
+    oth_bi = (("I", "o", B[0], B[6], ((B[3], B[5], "m"),)), ("I", "o", B[0], B[6], ((B[0], B[1], "m"), (B[1], B[6], "n"))), ("I", "o", B[0], B[6], ()))
+    oth_bp = (("P", "o", B[0], B[6], ((B[4], "m"),)), ("P", "o", B[0], B[6], ((B[0], "m"), (B[1], "n"))), ("P", "o", B[0], B[6], ()))
+    seeds_b = [("I", "t", B[0], B[6], ((B[0], B[1], "a"), (B[1], B[4], "a"))), ("I", "t", B[0], B[6], ((B[3], B[5], "a"),)),
+               ("I", "t", B[0], B[6], ((B[0], B[3], "a"), (B[4], B[5], "b"))), ("P", "t", B[0], B[6], ((B[0], "a"), (B[1], "a"), (B[5], "b")))]
+    step_bi = _mk_step(oth_bi)
+    step_bp = _mk_step(oth_bp)
+    bdepth = 2 if quick else 3
+    ps.append(BfsPart(
+        "bfs-broad-far-from-zero", lambda: seeds_b,
+        lambda s: tierops.menu(s, VB, (2.0 ** -7, 1.0), (-1.0, -(2.0 ** -7), 2.0 ** -7, 2.0), maxdiff=0.5),
+        lambda state, op: (step_bi if state[0] == "I" else step_bp)(state, op),
+        rule="the full menu from 4 seed tiers (equal labels) with all arguments on the dyadic grid 2**40 + {0, 2**-7, 0.5, 1, 2, 3}, durations and "
+             "offsets {2**-7, 1, 2}: every tier obtainable is well-formed (7.8 ms overlaps are overlaps, 7.8 ms intervals are intervals)",
+        bounds={"depth": bdepth, "label_length_cap": 9}, max_depth=bdepth, prune=_prune_fn(2.0 ** 41, 9),
+        snippet=lambda c: tierops.snippet(c[0], c[1], oth_bi if c[0][0] == "I" else oth_bp)))
+
     deep_seeds = [("I", "t", 0.0, 3.0, ((0.0, 1.0, "a"), (1.0, 2.0, "b"))), ("I", "t", 0.0, 2.0, ())]
     cap = 5 if quick else 6
     ps.append(BfsPart(
